@@ -1,4 +1,5 @@
 import IceProofs.Sys2C20FrameQ
+import IceProofs.AgentAuto
 /-!
 # C20 on `Sys2` — the frame relation along the timer path
 
@@ -145,6 +146,51 @@ theorem nominate_g {wa : Bool} (a : Agent) (now : Nat) (p : Pair) : G wa none no
   · exact sendRequest_g _ _ _ _ _ _ (Or.inl rfl)
   · exact G.refl _ _ _ _ _
 
+/-- the automatic-renomination block: quiet — the one valued transaction it may add is logged in `nomIssued` -/
+theorem autoRenom_g {wa : Bool} (a : Agent) (now : Nat) (hn : (idsOf a).Nodup) :
+    G wa none none none a (a.autoRenom now).1 := by
+  refine (IceProofs.Auto.autoRenom_closed (P := fun x => G wa none none none a x.1 ∧ idsOf x.1 = idsOf a) ?_ a
+    ⟨G.refl _ _ _ _ _, rfl⟩).1
+  exact {
+    mark := fun b _ id p h hp hw => ⟨h.1.trans (G.modPair_state b id .inProgress (by decide) (fun q hq hid => by
+        rw [pairById_unique (by rw [h.2]; exact hn) hp hq hid, hw]; decide)),
+      (idsOf_modPair b id (fun q => { q with state := .inProgress }) (fun _ => rfl)).trans h.2⟩
+    ping := fun b _ l r h _ _ => ⟨h.1.trans (ping_g b now l r), (Same.ping b now l r).evo.ids.trans h.2⟩
+    time := fun _ _ h => ⟨h.1.trans (G.of_eq rfl rfl rfl rfl (fun _ h => h) rfl), h.2⟩
+    count := fun _ _ h => ⟨h.1.trans (G.of_eq rfl rfl rfl rfl (fun _ h => h) rfl), h.2⟩
+    issue := fun b _ l r v h _ _ _ _ _ => ⟨h.1.trans (issueRequest_g b now l r v),
+      (Same.sendRequest b now l r true _).evo.ids.trans h.2⟩ }
+
+theorem autoRenom_connState (a : Agent) (now : Nat) : (a.autoRenom now).1.connState = a.connState :=
+  IceProofs.Auto.autoRenom_proj (fun x => x.connState) now (fun _ _ _ => rfl)
+    (fun b l r u n => sendRequest_connState b now l r u n) (fun _ _ => rfl) (fun _ _ => rfl) (fun _ _ => rfl) a
+
+theorem valKeepAuto_gf {wa : Bool} (a : Agent) (now : Nat) (hn : (idsOf a).Nodup) :
+    GF wa a (C03.valKeepAuto a now).1 := by
+  unfold C03.valKeepAuto
+  have h1 := validateSelected_gf (wa := wa) a now
+  have hw := EvoW.validateSelected a now
+  rcases hv : a.validateSelected now with ⟨a1, o1, ok⟩
+  rw [hv] at h1 hw
+  simp only [] at h1 hw ⊢
+  split
+  · rcases h1 with h1 | h1
+    · have hk := keepalive_g (wa := wa) a1 now
+      have hn2 : (idsOf (a1.keepalive now).1).Nodup := by
+        have hf : a1.connState ≠ .failed ∨ a1.connState = .failed := by
+          by_cases h : a1.connState = .failed
+          · exact Or.inr h
+          · exact Or.inl h
+        rcases hf with hf | hf
+        · rw [(Same.keepalive a1 now).evo.ids, evoW_ids hw hf]; exact hn
+        · rw [(Same.keepalive a1 now).evo.ids]
+          cases hw with
+          | evo e => rw [e.ids]; exact hn
+          | wf w => unfold idsOf; rw [w.wiped.1]; exact List.nodup_nil
+      exact Or.inl ((h1.trans hk).trans (autoRenom_g _ now hn2))
+    · exact Or.inr ((autoRenom_connState _ now).trans ((keepalive_connState a1 now).trans h1))
+  · exact h1
+
 theorem valKeep_gf {wa : Bool} (a : Agent) (now : Nat) : GF wa a (C03.valKeep a now).1 := by
   unfold C03.valKeep
   have h1 := validateSelected_gf (wa := wa) a now
@@ -162,7 +208,7 @@ theorem contactCandidates_gf {wa : Bool} (a : Agent) (now : Nat) (hn : (idsOf a)
   unfold Agent.contactCandidates
   split
   · split
-    · exact valKeep_gf a now
+    · exact valKeepAuto_gf a now hn
     · split
       · exact Or.inl (nominate_g _ _ _)
       · split
